@@ -536,6 +536,19 @@ func recvWrites(repo, dir string) []map[string]string {
 					out = append(out, map[string]string{"pkg": dir, "file": fname[len(repo)+1:], "type": tname, "func": fd.Name.Name,
 						"how": how, "line": strconv.Itoa(fset.Position(pos).Line)})
 				}
+				// a method that takes a lock or goes through sync.Once is assumed synchronised (as in pkgWrites)
+				synced := false
+				ast.Inspect(fd.Body, func(n ast.Node) bool {
+					if c, ok := n.(*ast.CallExpr); ok {
+						if sel, ok := c.Fun.(*ast.SelectorExpr); ok && (sel.Sel.Name == "Lock" || sel.Sel.Name == "Do" || sel.Sel.Name == "RLock") {
+							synced = true
+						}
+					}
+					return true
+				})
+				if synced {
+					continue
+				}
 				rooted := func(e ast.Expr) bool {
 					id := rootIdent(e)
 					if id == nil || id.Name != recv {
